@@ -379,8 +379,14 @@ class TaggedFields(AbstractType[dict[int, bytes]]):
         for k, v in value.items():
             # do we allow for other data types ?? It could get complicated really fast
             assert isinstance(v, bytes), f"Value {v!r} is not a byte array"
-            assert isinstance(k, int) and k > 0, f"Key {k} is not a positive integer"
+            assert isinstance(k, int) and k >= 0, (
+                f"Key {k} is not a non-negative integer"
+            )
+        # Each tagged field is written as <tag> <size> <data>, in ascending tag order
+        for k in sorted(value):
+            v = value[k]
             ret += UnsignedVarInt32.encode(k)
+            ret += UnsignedVarInt32.encode(len(v))
             ret += v
         return ret
 
